@@ -125,6 +125,10 @@ pub struct Ca {
     /// Does the CA additionally hold 0.0.0.0/0 and ::/0?
     #[serde(default)]
     pub slash0: bool,
+    /// Serial numbers of EE certificates of objects that are no longer published and are listed on the CRL
+    /// (a CA revokes what it replaces).
+    #[serde(default)]
+    pub also_revoked: Vec<u64>,
 }
 
 #[derive(Clone, Debug, PartialEq, Eq, Hash, Serialize, Deserialize)]
@@ -301,7 +305,7 @@ pub fn generate(rng: &mut Rng, now: Ts, p: &GenParams) -> World {
                 id, parent, tal: t, key: next_key % super::keys::CA_KEYS, repo, rrdp: false, extra_blocks: Vec::new(),
                 mft_number: 1 + rng.below(1000), mft_this: this, mft_next: next, mft_ee_nb: this - 60, mft_ee_na: next + rng.below(3 * DAY as u64) as Ts,
                 mft_serial: 1, crl_this: this, crl_next: next + rng.below(DAY as u64) as Ts,
-                point_faults: Vec::new(), fault_target: 0, objects: Vec::new(), unreachable: false, alias_of: None, slash0: false,
+                point_faults: Vec::new(), fault_target: 0, objects: Vec::new(), unreachable: false, alias_of: None, slash0: false, also_revoked: Vec::new(),
             });
             next_key += 1;
             if let Some(pp) = parent {
@@ -413,7 +417,7 @@ pub fn gen_chain(rng: &mut Rng, now: Ts, len: usize, objs: usize) -> World {
         let this = now - 3600; let next = now + 3 * DAY;
         w.cas.push(Ca { id, parent: if id == 0 { None } else { Some(id - 1) }, tal: 0, key: id % super::keys::CA_KEYS, repo: id % 2, rrdp: false, extra_blocks: Vec::new(),
             mft_number: 5, mft_this: this, mft_next: next, mft_ee_nb: this - 60, mft_ee_na: next + DAY, mft_serial: 1, crl_this: this, crl_next: next,
-            point_faults: Vec::new(), fault_target: 0, objects: Vec::new(), unreachable: false, alias_of: None, slash0: false });
+            point_faults: Vec::new(), fault_target: 0, objects: Vec::new(), unreachable: false, alias_of: None, slash0: false, also_revoked: Vec::new() });
         if id > 0 {
             let serial = 10 + w.cas[id - 1].objects.len() as u64;
             w.cas[id - 1].objects.push(Obj { name: format!("ca{id}.cer"), kind: ObjKind::ChildCa(id), serial, nb: now - 2 * DAY, na: now + 90 * DAY, fault: None, salt: 0 });
